@@ -34,7 +34,7 @@ PROPS = {
         assumptions=["htslib writes what the CSI/tabix specifications say (checked differentially)", "gzip decoding (Python gzip) is outside the model"],
     ),
     "C10": dict(
-        units=["GenDtype"],
+        units=["GenDtype", "GenSchema"],
         genextract="Dtype",
         props_files=["Props/C10.v"],
         driver="c10",
@@ -231,7 +231,7 @@ PROPS = {
         assumptions=["Blosc compression is deterministic", "cyvcf2 haploid phasing bit (F8) is a don't-care for values, a known finding for bytes"],
     ),
     "C02": dict(
-        units=["GenVczProtocol", "GenPartitions"],
+        units=["GenVczProtocol", "GenPartitions", "GenSchema"],
         props_files=["Props/C02.v"],
         driver="c02",
         rule="generated inputs biased toward Number=R/A/G fields absent or short on the widest records x variants/samples chunk "
